@@ -212,7 +212,8 @@ def run(ctx):
                 o.holds(hf, pl, f"adds {tm.show(cnt)} stubs (0 when already divisible)")
                 o.holds(hf, pl, "minimal count")
             elif cnt == want_guarded:
-                o.violated(hf, pl, f"without the divisibility guard {tm.show(cnt)} adds a whole extra motif's worth of stubs when the total is already divisible")
+                # exact: the patch count IS the guarded formula and no path condition guards it - independent of the function's shape
+                o.violated(hf, pl, f"without the divisibility guard {tm.show(cnt)} adds a whole extra motif's worth of stubs when the total is already divisible", shape_free=True)
             elif not tm.has_opaque(cnt) and tm.leaves(cnt) <= {ntop, i, "self._motif_sizes", "self"} | {l for l in tm.leaves(cnt) if l.endswith("()")}:
                 o.violated(hf, pl, f"adds {tm.show(cnt)} stubs unconditionally")
             else:
